@@ -56,8 +56,13 @@ def load_findings():
         with open(FINDINGS_FILE) as f:
             data = json.load(f)
     except FileNotFoundError:
-        return []
-    return data.get("findings", [])
+        data = {}
+    out = list(data.get("findings", []))
+    import glob
+    for fn in sorted(glob.glob(os.path.join(VERIF, "known_findings.d", "*.json"))):
+        with open(fn) as f:
+            out.extend(json.load(f).get("findings", []))
+    return out
 
 
 class Ctx(object):
